@@ -38,7 +38,8 @@ class FuncInfo:
 
     @property
     def is_property(self):
-        return any(isinstance(d, ast.Name) and d.id == 'property' for d in self.node.decorator_list)
+        return any((isinstance(d, ast.Name) and d.id in ('property', 'cached_property')) or (isinstance(d, ast.Attribute) and d.attr in ('cached_property',))
+                   for d in self.node.decorator_list)
 
     def loc(self, node=None):
         n = node if node is not None else self.node
